@@ -99,7 +99,7 @@ class StrDom(Dom):
         self.label = cls.__name__
 
     def samples(self):
-        xs = ["", "a", "b", "ab", "A", "\u00e9", "\U0001f431", "a\nb", "0", "true"]
+        xs = ["", "a", "b", "ab", "A", "\u00e9", "\U0001f431", "a\nb", "0", "true", "\ufeffabc", "\ufeff", "a\ufeff", "\x00", "\ud7ff\ue000"]
         return [x if self.cls is str else str.__new__(self.cls, x) for x in xs]
 
     def make(self, run, name):
@@ -599,6 +599,11 @@ def check_contract(con: Contract, rep: Report, engine=None, crosscheck=True, kno
             if st == "refuted":
                 o.model = model_to_dict(model)
                 o.replay = replay_refutation(con, raw, combo, s, p, model, goal)
+                if getattr(p.run, "overapprox", False) and o.replay.get("replayed") and not o.replay.get("confirmed"):
+                    # the path went through an over-approximated builtin model (arbitrary decoded text, abstracted float value ...):
+                    # a counter-model that does not replay is an artefact of the abstraction, not of the code -> undecided, then search
+                    o.status = st = "undecided"
+                    o.detail = "refuted only under an over-approximated builtin model; the counter-model does not replay on CPython"
             elif st == "discharged" and crosscheck and con.native is not False and getattr(p.run, "overapprox", False):
                 rep.crosscheck_skipped = getattr(rep, "crosscheck_skipped", 0) + 1     # nondeterministic model: no single native run corresponds
             elif st == "discharged" and crosscheck and con.native is not False:
